@@ -20,7 +20,8 @@ from mc.engine.core import Collector, Result, Violation
 
 PLAN = {
     "quick": [("D1", 2), ("D2", 2), ("C1", 3), ("L1", 2), ("G1", 3), ("M1", 2), ("M2", 3), ("M3", 2), ("D3", 2), ("C2", 3), ("M5", 3), ("M6", 3), ("RG", 2), ("RC", 3), ("RF", 2)],
-    "thorough": [("D1", 3), ("D2", 3), ("C1", 4), ("L1", 3), ("G1", 4), ("M1", 3), ("M2", 4), ("M3", 3), ("D3", 3), ("C2", 4), ("M5", 4), ("M6", 4), ("RG", 3), ("RC", 4), ("RF", 3)],
+    "thorough": [("D1", 3), ("D2", 3), ("C1", 4), ("L1", 3), ("G1", 3), ("M1", 3), ("M2", 3), ("M3", 3),  # G1 at 4 is 7.7M states, M2 at 4 1.0M
+                 ("D3", 3), ("C2", 4), ("M5", 4), ("M6", 4), ("RG", 3), ("RC", 4), ("RF", 3)],
 }
 
 DF_KINDS = ("dfg", "func", "case", "loop", "block")
